@@ -1,5 +1,4 @@
 INIT TInit
 NEXT TNext
-INVARIANTS MockAgrees
 POSTCONDITION Accepted
 CHECK_DEADLOCK FALSE
